@@ -30,7 +30,7 @@ def main():
     d = Path(sys.argv[1]).resolve()
     meta = json.loads((d / "meta.json").read_text())
     prop = meta["property"]
-    checks = [prop]
+    checks = [prop] + [c for c in meta.get("also_checks", []) if c != prop]
     if "--checks" in sys.argv:
         checks = sys.argv[sys.argv.index("--checks") + 1].split(",")
     rc, out = sh(["git", "-C", REPO, "status", "--porcelain"])
